@@ -993,6 +993,13 @@ func genC04(r *world.Rng, w *world.World, big bool) {
 				if r.Bool(0.5) {
 					c.Lits[0], c.Lits[len(c.Lits)-1] = c.Lits[len(c.Lits)-1], c.Lits[0]
 				}
+			} else if r.Bool(0.05) {
+				// ... or a variable in both polarities: a clause that every assignment satisfies
+				x := c.Lits[r.Intn(len(c.Lits))]
+				c.Lits = append(c.Lits, -x)
+				if r.Bool(0.5) {
+					c.Lits[0], c.Lits[len(c.Lits)-1] = c.Lits[len(c.Lits)-1], c.Lits[0]
+				}
 			}
 			if wcnf && r.Bool(0.03) {
 				c.Lits = []int{} // empty soft clause: always violated
